@@ -238,7 +238,7 @@ def artefacts_after(env, specs_with_fault, fault_index):
     return out
 
 
-def run_with_fault(case, ctx, mode, build_fault, at, label):
+def run_with_fault(case, ctx, mode, build_fault, at, label, compose=None):
     pkg, specs = case['pkg'], case['steps']
     desc0 = gen.descriptor_of(pkg)
     tables0 = gen.tables_of(pkg)
@@ -252,7 +252,20 @@ def run_with_fault(case, ctx, mode, build_fault, at, label):
     err = None
     try:
         with quiet():
-            flow = Flow(FeedStep(desc0, tables0), *steps)
+            if compose is None:
+                flow = Flow(FeedStep(desc0, tables0), *steps)
+            else:
+                # the steps up to and including the failing one form an inner flow that the outer flow consumes through
+                # one of the documented composition forms: its failure is the outer run's failure
+                inner = Flow(FeedStep(desc0, tables0), *steps[:at + 1])
+                if compose == 'load_tuple':
+                    ds = inner.datastream()
+                    head = dataflows.load((ds.dp.descriptor, ds.res_iter), strip=False, cast_strategy=dataflows.load.CAST_DO_NOTHING)
+                elif compose == 'sources':
+                    head = dataflows.sources(inner)
+                else:
+                    head = inner
+                flow = Flow(head, *steps[at + 1:])
             if mode == 'process':
                 flow.process()
             else:
@@ -260,6 +273,10 @@ def run_with_fault(case, ctx, mode, build_fault, at, label):
     except Exception as e:
         err = e
     if fired.exc is None:
+        if compose is not None and err is None and label.get('phase') == 'end':
+            # the step fails when it is asked for the resource after its last one: a run that completes without ever
+            # asking has skipped the end of the inner flow (where dumps are finalised, finalizers run - and failures surface)
+            raise Violation('inner-flow-never-driven-to-its-end:%s' % compose, dict(label, mode=mode))
         return False, 0
     if err is None:
         raise Violation('run-returned-normally-after-a-step-raised', dict(label, mode=mode))
@@ -299,6 +316,23 @@ def check(case, ctx):
                     fired_n += 1
                     if n_after:
                         subkeys.append('i%d%s%s%s' % (at, phase, row, mode))
+    # ---- (i') the same, with the failing step inside an inner flow consumed by the outer one (load((descriptor,
+    # resource iterator)), sources(Flow), a nested Flow): row / exhaustion / end-of-stream phases, cycling through the forms
+    for at in range(0, n + 1):
+        for pi, (phase, row) in enumerate((('row', 'last'), ('exhaustion', None), ('end', None))):
+            compose = ('load_tuple', 'sources', 'nested')[(at + pi) % 3]
+            exc_name = excs[ei % len(excs)]
+            ei += 1
+            mode = ('process', 'results')[(at + pi) % 2]
+            label = {'fault': 'inserted-step-in-inner-flow', 'composition': compose, 'at': at, 'phase': phase, 'row': row,
+                     'exc': exc_name, 'program': prog}
+            fired, n_after = run_with_fault(case, ctx, mode, lambda f: failing_step(phase, row, case['res_pick'], exc_name, f), at,
+                                            label, compose=compose)
+            runs += 1
+            if fired:
+                fired_n += 1
+                if n_after:
+                    subkeys.append('c%s%d%s%s' % (compose, at, phase, mode))
     # ---- (ii) faults through callables of built-in steps, (iii) source faults
     # source faults are enumerated for every case: exception classes the table reader treats specially x a row inside
     # the 100-row inference sample, the first row after it, and a later one (one observation mode each)
